@@ -1,1 +1,347 @@
-import Sc3Verif.C06.Model
+/-
+C06 — OSC encoding round-trips, conforms to OSC 1.0 and is sized correctly.
+
+Property theorems only (helper lemmas are in `Lemmas.lean`, the specification in `Spec.lean`).
+All statements quantify over ALL Python message / bundle lists (`List PV`, nested to any depth),
+all configurations (`Cfg`: send time and clock offset) and all byte strings.
+`PV.wfL l` is a representation invariant (a `str` is carried as valid UTF-8, a float argument
+carries a 32-bit pattern), not a restriction on inputs.
+-/
+import Sc3Verif.C06.Lemmas
+namespace Sc3Verif.C06
+
+/-! ## Round trip -/
+
+/-- MAIN (messages): whatever `_build_msg` accepts decodes (`OscMessage(dgram)`) to the same address
+    and to the tree `vs` that the documented coercions `coerceArgs` and the bracket markers denote:
+    `vs` is the unique tree whose bracket-flattening is the coerced argument sequence.  If the
+    address starts with `/`, `OscPacket(dgram).messages` is that single message (time `None`). -/
+theorem msg_roundtrip (cfg : Cfg) (l : List PV) (d : Bytes)
+    (h : buildMsgL cfg l = .ok d) (hw : PV.wfL l = true) :
+    ∃ a args ws vs, l = .str a :: args ∧ coerceArgs cfg args = .ok ws ∧
+      flatVals vs = ws.map WArg.tok ∧
+      parseMsg d = .ok ⟨a, vs⟩ ∧
+      (a.head? = some 0x2F → decodePacket d = .ok [(none, ⟨a, vs⟩)]) := by
+  obtain ⟨a, args, ws, vs, rfl, hc, hr, hp, _, _, hhead⟩ := msg_parse h hw
+  have hok : ∀ t ∈ ws.map WArg.tok, t.leafOk = true := by
+    intro t ht
+    obtain ⟨w, _, rfl⟩ := List.mem_map.mp ht
+    exact tok_leafOk w
+  refine ⟨a, args, ws, vs, rfl, hc, (nestRun_iff_flat' _ _ hok).mp hr, hp, ?_⟩
+  intro h2f
+  rw [← hhead] at h2f
+  simp [decodePacket, isBundle_of_head h2f, isMsg, h2f, hp]
+
+/-- Array markers: the decoder's stack machine accepts exactly the balanced token sequences and
+    returns THE tree with that flattening (so `'['`/`']'` become arrays, nested to any depth, and
+    unbalanced markers are refused — the builder parses its own output). -/
+theorem nestRun_iff_flat (ts : List Tok) (vs : List DVal) (hok : ∀ t ∈ ts, t.leafOk = true) :
+    nestRun ts [] [] = .ok vs ↔ flatVals vs = ts :=
+  nestRun_iff_flat' ts vs hok
+
+/-- MAIN (bundles, all nestings): whatever `_build_bundle` accepts parses back (`OscBundle(dgram)`)
+    to the denotation of the Python list — timetag of `_get_timetag`, elements in order, nested
+    bundles to any depth, every message as in `msg_roundtrip` — provided element addresses start
+    with `/` (other elements are dropped by the decoder by design). -/
+theorem bundle_roundtrip (cfg : Cfg) (l : List PV) (d : Bytes)
+    (h : buildBundleL cfg l = .ok d) (hw : PV.wfL l = true) (hs : slashB l = true) :
+    ∃ tt es, denoteBundleL cfg l = some (tt, es) ∧ parseBundle d = .ok (tt, es) :=
+  bundle_parse cfg l d h hw hs
+
+/-- ... and `OscPacket(dgram).messages` is the flattened denotation, stably sorted by timetag. -/
+theorem packet_roundtrip (cfg : Cfg) (l : List PV) (d : Bytes)
+    (h : buildBundleL cfg l = .ok d) (hw : PV.wfL l = true) (hs : slashB l = true) :
+    ∃ tt es, denoteBundleL cfg l = some (tt, es) ∧
+      decodePacket d = .ok ((sortByTime (flattenElems tt es)).map fun x => (some x.1, x.2)) := by
+  obtain ⟨tt, es, hd, hp⟩ := bundle_parse cfg l d h hw hs
+  obtain ⟨_, _, _, _, _, _, _, he, _⟩ := buildBundleL_ok h
+  refine ⟨tt, es, hd, ?_⟩
+  simp [decodePacket, isBundle_encode he, hp]
+
+/-- Nested message lists (completion messages) are sent as blobs that are themselves encodings to
+    which `msg_roundtrip` applies; same for bundle-shaped lists (`nested_bundle_blob`). -/
+theorem nested_msg_blob (cfg : Cfg) (l : List PV) (w : WArg)
+    (hne : l.isEmpty = false) (hs : headIsStr l = true) (h : coerceArg cfg (.list l) = .ok w) :
+    ∃ d, buildMsgL cfg l = .ok d ∧ w = .blob d := by
+  simp only [coerceArg, hne, hs, Bool.false_eq_true, if_false, if_true] at h
+  cases hb : buildMsgL cfg l with
+  | error e => simp [hb] at h
+  | ok d => simp [hb] at h; exact ⟨d, rfl, h.symm⟩
+
+theorem nested_bundle_blob (cfg : Cfg) (l : List PV) (w : WArg)
+    (hne : l.isEmpty = false) (hs : headIsStr l = false) (h : coerceArg cfg (.list l) = .ok w) :
+    ∃ d, buildBundleL cfg l = .ok d ∧ w = .blob d := by
+  simp only [coerceArg, hne, hs, Bool.false_eq_true, if_false] at h
+  split at h
+  · cases hb : buildBundleL cfg l with
+    | error e => simp [hb] at h
+    | ok d => simp [hb] at h; exact ⟨d, rfl, h.symm⟩
+  · cases h
+
+/-- The documented scalar coercions. -/
+theorem coercions (cfg : Cfg) :
+    coerceArg cfg .none = .ok (.int 0) ∧ coerceArg cfg (.bool false) = .ok (.int 0) ∧
+    coerceArg cfg (.bool true) = .ok (.int 1) ∧ coerceArg cfg (.list []) = .ok (.int 0) ∧
+    (∀ i, coerceArg cfg (.int i) = .ok (.int i)) ∧
+    (∀ v b, coerceArg cfg (.float v b) = .ok (.float b)) ∧
+    (∀ b, coerceArg cfg (.bytes b) = .ok (.blob b)) ∧
+    coerceArg cfg (.str bracketOpen) = .ok .arrOpen ∧ coerceArg cfg (.str bracketClose) = .ok .arrClose ∧
+    (∀ s, s ≠ bracketOpen → s ≠ bracketClose → coerceArg cfg (.str s) = .ok (.str s)) := by
+  refine ⟨rfl, rfl, rfl, rfl, fun _ => rfl, fun _ _ => rfl, fun _ => rfl, rfl, rfl, ?_⟩
+  intro s h1 h2
+  simp [coerceArg, h1, h2]
+
+/-! ## Refusal -/
+
+/-- Values without a faithful representation are refused: an int outside int32, a `str` with an
+    embedded NUL or one that cannot be encoded, an empty blob.  (Refusal = no bytes: the builders
+    return `Except.error`, nothing is sent.) -/
+theorem refused_not_altered (w : WArg) (x : Bytes) (h : writeArg w = .ok x) :
+    (∀ i, w = .int i → -2147483648 ≤ i ∧ i < 2147483648) ∧
+    (∀ s, w = .str s → hasNul s = false) ∧ w ≠ .strBad ∧ (∀ b, w = .blob b → b ≠ []) := by
+  refine ⟨?_, ?_, ?_, ?_⟩
+  · intro i hi; subst hi
+    simp only [writeArg] at h
+    split at h
+    · assumption
+    · cases h
+  · intro s hs; subst hs
+    simp only [writeArg] at h
+    split at h
+    · cases h
+    · rename_i hn; simpa using hn
+  · intro hs; subst hs; cases h
+  · intro b hb; subst hb
+    simp only [writeArg] at h
+    split at h
+    · cases h
+    · rename_i hne; intro hb; subst hb; simp at hne
+
+/-- ... and conversely every in-range int, NUL-free text and non-empty blob (below 2 GiB) IS encodable. -/
+theorem representable_accepted :
+    (∀ i : Int, -2147483648 ≤ i → i < 2147483648 → ∃ x, writeArg (.int i) = .ok x) ∧
+    (∀ s, hasNul s = false → ∃ x, writeArg (.str s) = .ok x) ∧
+    (∀ b : Bytes, b ≠ [] → b.length < 2147483648 → ∃ x, writeArg (.blob b) = .ok x) := by
+  refine ⟨?_, ?_, ?_⟩
+  · intro i h1 h2; exact ⟨be32 (ofInt32 i), by simp [writeArg, h1, h2]⟩
+  · intro s hn; exact ⟨writeString s, by simp [writeArg, hn]⟩
+  · intro b hb hl
+    refine ⟨be32 b.length ++ b ++ zeros (blobPad b.length), ?_⟩
+    have h1 : b.isEmpty = false := by cases b <;> simp_all
+    have h2 : ¬ b.length ≥ 2147483648 := by omega
+    simp [writeArg, h1, h2]
+
+/-- A refused message list produces an error and therefore no datagram; an accepted one was parsed
+    back by the builder itself (`return OscMessage(dgram)`). -/
+theorem accepted_parses (cfg : Cfg) (l : List PV) (d : Bytes) (h : buildMsgL cfg l = .ok d) :
+    ∃ m, parseMsg d = .ok m := by
+  obtain ⟨_, _, _, _, _, _, hm⟩ := buildMsgL_ok h
+  exact hm
+
+/-! ## OSC 1.0 layout -/
+
+/-- 4-byte alignment of strings, blobs, messages and bundles (all nestings). -/
+theorem aligned4 (cfg : Cfg) :
+    (∀ s, (writeString s).length % 4 = 0) ∧ (∀ b, (blobBytes b).length % 4 = 0) ∧
+    (∀ l d, buildMsgL cfg l = .ok d → d.length % 4 = 0) ∧
+    (∀ l d, buildBundleL cfg l = .ok d → d.length % 4 = 0) :=
+  ⟨writeString_aligned, blobBytes_aligned, fun _ _ h => buildMsgL_aligned h,
+   fun l d h => buildBundleL_aligned cfg l d h⟩
+
+/-- strings are NUL-terminated and padded with 1..4 NULs; blobs are size-prefixed and zero padded. -/
+theorem string_blob_layout :
+    (∀ s, ∃ k, 1 ≤ k ∧ k ≤ 4 ∧ writeString s = s ++ zeros k) ∧
+    (∀ b, blobBytes b = be32 b.length ++ b ++ zeros (blobPad b.length) ∧ blobPad b.length < 4) := by
+  refine ⟨writeString_terminated, fun b => ⟨rfl, ?_⟩⟩
+  unfold blobPad; omega
+
+/-- the message layout: address string, `,`-prefixed type tag string (one tag per wire argument),
+    arguments in order -/
+theorem message_layout (addr : PV) (ws : List WArg) (d : Bytes) (h : encodeMsgRaw addr ws = .ok d) :
+    ∃ a body, addr = .str a ∧ writeArgs ws = .ok body ∧
+      d = writeString a ++ writeString (0x2C :: ws.map WArg.tag) ++ body := by
+  obtain ⟨a, body, h1, _, _, h2, h3⟩ := encodeMsgRaw_ok h
+  exact ⟨a, body, h1, h2, h3⟩
+
+/-- numbers are big-endian: reading the bytes most-significant first gives the number back -/
+theorem big_endian :
+    (∀ n, n < 4294967296 → fromBE (be32 n) 0 = n) ∧ (∀ n, n < 18446744073709551616 → fromBE (be64 n) 0 = n) ∧
+    (∀ i : Int, -2147483648 ≤ i → i < 2147483648 → toInt32 (fromBE (be32 (ofInt32 i)) 0) = i) := by
+  refine ⟨fromBE_be32_zero, fromBE_be64_zero, ?_⟩
+  intro i h1 h2
+  rw [fromBE_be32_zero _ (ofInt32_lt i), toInt32_ofInt32 i h1 h2]
+
+/-- bundle layout: `#bundle\0`, 8-byte timetag, then each element prefixed with its size -/
+theorem element_size_prefix (tt : Int) (cs : List Bytes) (d : Bytes) (h : encodeBundleRaw tt cs = .ok d) :
+    d = bundlePrefix ++ be64 tt.toNat ++ frame cs ∧ 0 ≤ tt ∧ tt < 18446744073709551616 ∧
+      (∀ c ∈ cs, c.length < 2147483648) ∧
+      (∀ c rest, frame (c :: rest) = be32 c.length ++ c ++ frame rest) := by
+  obtain ⟨h0, h1, h2, h3⟩ := encodeBundleRaw_ok h
+  exact ⟨h3, h0, h1, h2, fun _ _ => rfl⟩
+
+/-- reading a framed element list element by element (the decoder side of `element_size_prefix`) -/
+theorem frame_reads_back (cs : List Bytes) (h : ∀ c ∈ cs, c.length < 2147483648) :
+    parseElems (frame cs) = parseContents cs :=
+  parseElems_frame cs h
+
+/-! ## Size prediction -/
+
+/-- `_calc_msg_dgram_size` is defined and never below the real size, for every accepted message
+    (all nestings; ASCII addresses, which is what the library's sizing encodes with). -/
+theorem predict_ge_real_msg (cfg : Cfg) (l : List PV) (d : Bytes)
+    (h : buildMsgL cfg l = .ok d) (ha : asciiL l = true) :
+    ∃ n, calcMsg l = .ok n ∧ d.length ≤ n :=
+  (predL cfg l).2.1 ha d h
+
+/-- `_calc_bndl_dgram_size(elements)` is defined and never below the real size of the bundle. -/
+theorem predict_ge_real_bundle (cfg : Cfg) (t : PV) (elements : List PV) (d : Bytes)
+    (h : buildBundleL cfg (t :: elements) = .ok d) (ha : asciiAll elements = true) :
+    ∃ n, calcBndl elements = .ok n ∧ d.length ≤ n := by
+  obtain ⟨_, _, tt, cs, hl, _, hc, he, _⟩ := buildBundleL_ok h
+  cases hl
+  obtain ⟨n, hn, hle⟩ := (predL cfg elements).2.2.2 ha t cs hc
+  exact ⟨n, hn, by rw [encodeBundleRaw_length he]; exact hle⟩
+
+/-! ## Clumping -/
+
+/-- the clumps, concatenated, are the original element list (every element once, in order) -/
+theorem clump_concat (elements : List PV) (size : Nat) (cs : List (List PV))
+    (h : clumpBundle elements size = .ok cs) : cs.flatten = elements :=
+  clumpBundle_concat h
+
+/-- if every element alone fits (`16 + s + 4 < size`), every clump is predicted — hence encodes —
+    below `size` -/
+theorem clump_within_limit (cfg : Cfg) (elements : List PV) (size : Nat) (cs : List (List PV))
+    (h : clumpBundle elements size = .ok cs)
+    (hfit : ∀ e ∈ elements, ∀ s, calcElem e = .ok s → 16 + s + 4 < size)
+    (ha : asciiAll elements = true) :
+    ∀ c ∈ cs, (∃ n, calcBndl c = .ok n ∧ n < size) ∧
+      ∀ t d, buildBundleL cfg (t :: c) = .ok d → d.length < size := by
+  intro c hc
+  obtain ⟨n, hn, hlt⟩ := clumpBundle_within h hfit c hc
+  refine ⟨⟨n, hn, hlt⟩, ?_⟩
+  intro t d hb
+  have hac : asciiAll c = true := by
+    rw [asciiAll_iff] at ha ⊢
+    exact fun e he => ha e (mem_of_clump h hc e he)
+  have := bundle_le_pred hb hac hn
+  omega
+
+/-- `send_clumped_bundles`: every datagram handed to the interface is within the UDP limit and the
+    datagrams carry every element exactly once, in order. -/
+theorem send_clumped_within_limit (cfg : Cfg) (elements : List PV) (plan : List (List PV))
+    (h : sendClumpedPlan elements = .ok plan)
+    (hfit : ∀ e ∈ elements, ∀ s, calcElem e = .ok s → 16 + s + 4 < defaultClumpSize)
+    (ha : asciiAll elements = true) :
+    plan.flatten = elements ∧
+    ∀ c ∈ plan, ∀ t d, buildBundleL cfg (t :: c) = .ok d → d.length ≤ maxUdpDgramSize := by
+  unfold sendClumpedPlan at h
+  cases hn : calcBndl elements with
+  | error e => simp [hn] at h
+  | ok n =>
+    simp only [hn, ok_bind] at h
+    split at h
+    · refine ⟨clumpBundle_concat h, ?_⟩
+      intro c hc t d hb
+      have := (clump_within_limit cfg elements _ plan h hfit ha c hc).2 t d hb
+      have hcmp : defaultClumpSize ≤ maxUdpDgramSize := by decide
+      omega
+    · rename_i hle
+      simp at h; subst h
+      refine ⟨by simp, ?_⟩
+      intro c hc t d hb
+      simp at hc; subst hc
+      have := bundle_le_pred hb ha hn
+      omega
+
+theorem calcElem_sync (id : Int) : calcElem (syncMsg id) = .ok 16 := by
+  simp [syncMsg, calcElem, headIsStr, PV.isStr, calcMsg, calcArgs, calcArg, isAscii, strpad4]
+
+theorem appendSync_mem (ids : Nat → Int) : ∀ (cs : List (List PV)) (k : Nat) (c : List PV),
+    c ∈ appendSync ids k cs → ∃ c0 j, c0 ∈ cs ∧ c = c0 ++ [syncMsg (ids j)]
+  | [], _, _, h => by simp [appendSync] at h
+  | x :: xs, k, c, h => by
+    simp only [appendSync, List.mem_cons] at h
+    rcases h with rfl | h
+    · exact ⟨x, k, List.mem_cons_self, rfl⟩
+    · obtain ⟨c0, j, h1, h2⟩ := appendSync_mem ids xs (k + 1) c h
+      exact ⟨c0, j, List.mem_cons_of_mem _ h1, h2⟩
+
+/-- `sync(elements=...)`: every datagram (clump + its `/sync`) is within the UDP limit. -/
+theorem sync_within_limit (cfg : Cfg) (ids : Nat → Int) (elements : List PV) (plan : List (List PV))
+    (h : syncPlan ids elements = .ok plan)
+    (hfit : ∀ e ∈ elements, ∀ s, calcElem e = .ok s → 16 + s + 4 < maxUdpDgramSize - syncBndlDgramSize)
+    (ha : asciiAll elements = true) :
+    ∀ c ∈ plan, ∀ t d, buildBundleL cfg (t :: c) = .ok d → d.length ≤ maxUdpDgramSize := by
+  unfold syncPlan at h
+  have hsyncA : ∀ id, asciiA (syncMsg id) = true := by
+    intro id; simp [syncMsg, asciiA, asciiL, asciiAll, isAscii]
+  have hk1 : 20 ≤ syncBndlDgramSize := by decide
+  have hk2 : syncBndlDgramSize ≤ maxUdpDgramSize := by decide
+  cases hn : calcBndl elements with
+  | error e => simp [hn] at h
+  | ok n =>
+    simp only [hn, ok_bind] at h
+    split at h
+    · cases hcl : clumpBundle elements (maxUdpDgramSize - syncBndlDgramSize) with
+      | error e => simp [hcl] at h
+      | ok cs =>
+        simp [hcl] at h; subst h
+        intro c hc t d hb
+        obtain ⟨c0, j, hc0, rfl⟩ := appendSync_mem ids cs 0 c hc
+        obtain ⟨m, hm, hlt⟩ := clumpBundle_within hcl hfit c0 hc0
+        have hac : asciiAll (c0 ++ [syncMsg (ids j)]) = true := by
+          rw [asciiAll_iff] at ha ⊢
+          intro e he
+          rcases List.mem_append.mp he with he | he
+          · exact ha e (mem_of_clump hcl hc0 e he)
+          · simp at he; subst he; exact hsyncA _
+        have := bundle_le_pred hb hac (calcBndl_snoc c0 _ m 16 hm (calcElem_sync _))
+        omega
+    · rename_i hle
+      simp at h; subst h
+      intro c hc t d hb
+      simp at hc; subst hc
+      have hac : asciiAll (elements ++ [syncMsg (ids 0)]) = true := by
+        rw [asciiAll_iff] at ha ⊢
+        intro e he
+        rcases List.mem_append.mp he with he | he
+        · exact ha e he
+        · simp at he; subst he; exact hsyncA _
+      have := bundle_le_pred hb hac (calcBndl_snoc elements _ n 16 hn (calcElem_sync _))
+      omega
+
+/-! ## Decoder totality -/
+
+/-- `decodePacket` is a total function on byte strings (accepted by Lean without fuel: the bundle
+    loop consumes at least the 4 size bytes per step once the element size is validated).  Stated
+    as: every byte string gives a result or one of the five exception classes. -/
+theorem decoder_total (d : Bytes) :
+    (∃ ms, decodePacket d = .ok ms) ∨ (∃ e, decodePacket d = .error e) := by
+  cases decodePacket d with
+  | ok ms => exact Or.inl ⟨ms, rfl⟩
+  | error e => exact Or.inr ⟨e, rfl⟩
+
+/-! ## Non-vacuity -/
+
+def cfg0 : Cfg := ⟨0, 0⟩
+
+/-- `['/a', None, True, 1.5, 'hi', b'\x01\x02\x03', '[', 7, ']', ['/b']]` -/
+def exMsg : List PV :=
+  [.str [0x2F, 0x61], .none, .bool true, .float (3/2) 1069547520, .str [0x68, 0x69], .bytes [1, 2, 3],
+   .str bracketOpen, .int 7, .str bracketClose, .list [.str [0x2F, 0x62]]]
+
+example : PV.wfL exMsg = true := by decide
+example : asciiL exMsg = true := by decide
+example : (match buildMsgL cfg0 exMsg with | .ok d => d.length | .error _ => 0) = 56 := by decide +kernel
+
+/-- `[0.5, ['/a', 1], [1, ['/b']]]` with send time 2 -/
+def exBundle : List PV :=
+  [.float (1/2) 1056964608, .list [.str [0x2F, 0x61], .int 1], .list [.int 1, .list [.str [0x2F, 0x62]]]]
+
+example : slashB exBundle = true := by decide
+example : (match buildBundleL ⟨2, 0⟩ exBundle with | .ok d => d.length | .error _ => 0) = 64 := by decide +kernel
+example : (match clumpBundle [.list [.str [0x2F, 0x61]], .list [.str [0x2F, 0x62]], .list [.str [0x2F, 0x63]]] 50 with
+    | .ok cs => cs.map List.length | .error _ => []) = [2, 1] := by decide +kernel
+
+end Sc3Verif.C06
